@@ -44,7 +44,7 @@ COMPONENTS = {"real": ["smpl_extract: image objects, lazy directory realisation,
 ASSUMPTIONS = ["clients are cooperative: a switch happens between two public calls (next/read/seek/ls), which is the only place a "
                "single-threaded caller can interleave", "each data client owns a distinct sample's stream (two clients on the very same "
                "stream object would share its cursor by definition)"]
-EXPECTED_PROBES = ["reseek_after_switch", "switch_at_sector_edge", "switch_on_sector_boundary", "lazy_ls_between_blocks", "foreign_seek_to_expected_position",
+EXPECTED_PROBES = ["reseek_after_switch", "switch_at_sector_edge", "victim_stream_hit_the_cut", "switch_on_sector_boundary", "lazy_ls_between_blocks", "foreign_seek_to_expected_position",
                    "switch_after_seek", "stereo_pair_client", "reversed_stream_client", "mdf_container", "cdda", "roland", "akai", "same_sample_second_view", "sweep_interleavings", "stream_reopened"]
 SHRINK = {"max_attempts": 150, "max_seconds": 120.0, "simple_values": {"policy": ["contiguous"], "block": [4096]}}
 
@@ -205,7 +205,30 @@ def gen(rng: random.Random, tier: str, index: int) -> dict:
         model = gen_cdda_model(rng)
     sc = {"fmt": fmt, "model": model, "block": rng.choice([4, 64, 510, 4096, 4096, 8192]), "clients": [], "schedule_seed": rng.getrandbits(40),
           "max_steps": rng.choice([30, 100, 400]), "switch_bias": rng.choice([0.5, 0.8, 0.95])}
+    if fmt == "akai" and rng.random() < 0.3:
+        # fault: the image is cut inside the last sector of the physically last sample.  That sample's stream runs dry; every
+        # other stream (all of whose sectors lie before the cut) must still deliver its bytes, whatever was read first.
+        try:
+            _img, lay = A.build(model)
+            used = [(max(f.sectors_abs), "f", f) for _, _, f in lay.files() if f.sectors_abs]
+            used += [(max(v.dir_abs), "d", v) for p_ in lay.partitions for v in p_.volumes if v.dir_abs]
+            used.sort(key=lambda t: t[0])
+            last = used[-1] if used else None
+            if last and last[1] == "f" and last[2].kind == "sample":
+                fl = last[2]
+                # the sample's 140-byte header (first chain sector) stays readable
+                sc["cut"] = last[0] + 2 * rng.randint(100 if fl.sectors_abs[0] == last[0] else 1, 4000)
+                sc["victim"] = "%s/%s/%s" % (A.partition_letter(fl.part), model["partitions"][fl.part]["volumes"][fl.vol]["name"], fl.name)
+        except ScenarioInvalid:
+            pass
     targets = _data_targets(sc)
+    if sc.get("victim"):
+        vt = [t for t in targets if t["path"] == sc["victim"]]
+        if vt:
+            # the victim is read by a raw reader that runs into the cut
+            targets.remove(vt[0])
+            sc["clients"].append({"k": "R", "target": vt[0]["path"], "lenient": True,
+                                  "ops": [["read", 4096]] * rng.randint(0, 2) + [["read", vt[0]["len"] + 2]] + [["read", 4096]]})
     if not targets:
         sc["clients"] = [{"k": "D", "paths": _dir_paths(sc)[:4]}, {"k": "X", "pokes": [0, 1]}]
         return sc
@@ -495,7 +518,7 @@ def _open(sc: dict):
     fmt, m = sc["fmt"], sc["model"]
     if fmt == "akai":
         img, _ = A.build(m)
-        sf = SimFile(img)
+        sf = SimFile(img, cut=sc.get("cut"))
         return sf, [sf], contextlib.nullcontext()
     if fmt == "akai2352":
         img, _ = A.build(m)
@@ -664,6 +687,12 @@ def run(sc: dict) -> RunResult:
                     break
                 except Exception as e:      # noqa: BLE001
                     err = "client_exception: client %d (%s %s) raised %s: %s" % (c.cid, c.spec["k"], c.spec.get("target", ""), type(e).__name__, str(e)[:120])
+                if c.spec.get("lenient"):
+                    # the stream that runs into the cut may end early, come back short or raise: only the others are judged
+                    if err:
+                        res.probes["victim_stream_hit_the_cut"] += 1
+                        c.done = True
+                    err = None
                 c.steps += 1
                 c.saved_cursor = sf.peek_cursor()
                 c.at_edge = isinstance(c, (TClient, RClient)) and sf.peek_cursor() % 2048 == 0 and sf.peek_cursor() > 0
